@@ -317,6 +317,8 @@ Definition open_msg (s : mstate) (health_low : bool) (signer coll borrow coll_am
   | Some pool =>
     if negb (mem asset (mp_pools ps)) || mem asset (mp_closed ps) then (c0, Err E_M) else
     if health_low then (c0, Err E_M) else
+    (* exactly one of the two assets is the native token (fix of finding F-17) *)
+    if Bool.eqb (coll =? ROWAN) (borrow =? ROWAN) then (c0, Err E_M) else
     let lev := Z.min lev_msg (mp_lev_max ps) in
     let eta := lev - PREC in
     let c1 := mkCtx s pool (new_mtp coll borrow lev) asset signer 0 in
@@ -373,8 +375,11 @@ Definition deliver_margin (s : mstate) (fee : Z) (health_low : bool) (m : margin
   if snd r then (c_s (fst r), true) else (s0, false).
 
 (* ---- BeginBlocker ---- *)
-(* BeginBlockerProcessMTP: whatever happens, the context reached is kept (recover()) *)
-Definition process_mtp : PM Z :=
+(* BeginBlockerProcessMTP (after the fix of finding F-9): a position is processed atomically. The interest part
+   (health, interest payment, SetMTP) is kept only if it completes; the liquidation that follows is kept only
+   if ForceCloseLong succeeds; a panic anywhere (recover()) keeps nothing, neither in the store nor in the
+   in-memory pool shared with the positions processed afterwards. *)
+Definition process_interest : PM unit :=
   c <-- getc ;;
   h <-- lift (mtp_health (c_s c) (c_asset c) (c_mtp c) (c_pool c)) ;;
   upd_mtp (fun m => Ok (m <| m_health := h |>)) ;;;
@@ -382,9 +387,20 @@ Definition process_mtp : PM Z :=
   i <-- lift (calc_interest (c_mtp c1) (c_pool c1) 0 0) ;;
   fin <-- handle_interest_payment i ;;
   add_block_interest fin ;;;
-  set_mtp ;;;
-  r <-- force_close_long false true ;;
-  ret (snd r).
+  set_mtp.
+
+Definition process_mtp : PM Z :=
+  fun c =>
+    match process_interest c with
+    | (cA, Ok _) =>
+      match force_close_long false true cA with
+      | (cF, Ok r) => (cF, Ok (snd r))
+      | (_, Err e) => (cA, Err e)
+      | (_, Panic) => (c, Panic)
+      end
+    | (_, Err e) => (c, Err e)
+    | (_, Panic) => (c, Panic)
+    end.
 
 Definition all_mtps (s : mstate) : list (Z * Z * mtp) :=
   concat (map (fun am => map (fun im => (fst am, fst im, snd im)) (snd am)) (ms_mtps s)).
